@@ -72,7 +72,8 @@ def main(argv):
             if os.path.exists(p):
                 out.append(p)
             else:
-                out += sorted(glob.glob(os.path.join(build.VERIF, "selftest", "*", "*%s*.patch" % p)))
+                out += [x for x in sorted(glob.glob(os.path.join(build.VERIF, "selftest", "*", "*%s*.patch" % p)))
+                        if "/brittle/" not in x or "brittle" in p]
                 out += sorted(glob.glob(os.path.join(build.VERIF, "seeded", "*%s*" % p, "patch.diff")))
         pats = out
     pats = pats + jflag
